@@ -385,11 +385,16 @@ Section Fragments.
     | (w, s) :: r => if cps_eqb w t then Some s else term_score r t
     end.
 
-  (* FragmentCandidate::try_add_token *)
+  (* FragmentCandidate::try_add_token: `self.stop_offset = self.stop_offset.max(token.offset_to)`
+     (the shape of that statement is pinned: SNIPPET_STOP_IS_MAX) *)
+  Definition new_stop (stop to : N) : N := if SNIPPET_STOP_IS_MAX =? 1 then N.max stop to else to.
+  Lemma new_stop_eq stop to : new_stop stop to = N.max stop to.
+  Proof. unfold new_stop. replace (SNIPPET_STOP_IS_MAX =? 1) with true by (vm_compute; reflexivity). reflexivity. Qed.
+
   Definition try_add_token (terms : list (list cp * score)) (f : frag) (tk : token) : frag :=
     match term_score terms (lower_str (t_text tk)) with
-    | Some s => mkFrag (sadd (f_score f) s) (f_start f) (t_to tk) (f_hl f ++ [(t_from tk, t_to tk)])
-    | None => mkFrag (f_score f) (f_start f) (t_to tk) (f_hl f)
+    | Some s => mkFrag (sadd (f_score f) s) (f_start f) (new_stop (f_stop f) (t_to tk)) (f_hl f ++ [(t_from tk, t_to tk)])
+    | None => mkFrag (f_score f) (f_start f) (new_stop (f_stop f) (t_to tk)) (f_hl f)
     end.
 
   Definition push_if_scored (acc : list frag) (f : frag) : list frag :=
@@ -476,16 +481,22 @@ Section Fragments.
   Qed.
 
   Lemma try_add_inv f tk : frag_inv f -> tok_pre tk -> f_start f <= t_from tk ->
-    (t_to tk - f_start f <= max \/ (f_start f = t_from tk /\ max < t_to tk - t_from tk)) ->
+    (t_to tk - f_start f <= max \/ (f_start f = t_from tk /\ f_stop f = t_from tk /\ max < t_to tk - t_from tk)) ->
     frag_inv (try_add_token terms f tk).
   Proof.
     intros (B1 & B2 & Hle & Hhl & Hlen) [Hin Hsp] Hfrom Hmax.
     destruct (span_ok_facts _ _ Hsp) as (S1 & S2 & S3 & S4).
-    assert (Hlen' : t_to tk - f_start f <= max \/
-              exists tk0, In tk0 all /\ f_start f = t_from tk0 /\ t_to tk = t_to tk0 /\ max < t_to tk0 - t_from tk0).
-    { destruct Hmax as [H|[H1 H2]]; [left; exact H|right; exists tk; auto]. }
+    assert (Hstop : boundary text (N.max (f_stop f) (t_to tk))).
+    { destruct (N.max_spec (f_stop f) (t_to tk)) as [[_ ->]|[_ ->]]; assumption. }
+    assert (Hlen' : N.max (f_stop f) (t_to tk) - f_start f <= max \/
+              exists tk0, In tk0 all /\ f_start f = t_from tk0 /\ N.max (f_stop f) (t_to tk) = t_to tk0 /\ max < t_to tk0 - t_from tk0).
+    { destruct Hmax as [H|(H1 & H2 & H3)].
+      - destruct Hlen as [Hl|(tk0 & I0 & E1 & E2 & G)]; [left; lia|].
+        right. exists tk0. repeat split; try assumption. lia.
+      - right. exists tk. repeat split; try assumption. lia. }
     unfold try_add_token. destruct (term_score terms (lower_str (t_text tk))) as [s|] eqn:Es;
-      unfold frag_inv; cbn [f_start f_stop f_hl]; repeat split; try assumption; try lia.
+      unfold frag_inv; cbn [f_start f_stop f_hl]; rewrite !new_stop_eq;
+      (split; [exact B1|]); (split; [exact Hstop|]); (split; [lia|]); (split; [|exact Hlen']); [|exact Hhl].
     apply Forall_app. split; [exact Hhl|]. constructor; [|constructor].
     exists tk. cbn [fst]. repeat split; try assumption. rewrite Es. discriminate.
   Qed.
@@ -508,42 +519,34 @@ Section Fragments.
       + apply IH; try assumption.
         * unfold try_add_token, frag_new. destruct (term_score _ _); cbn [f_start]; exact Hle.
         * apply try_add_inv; [apply frag_new_inv; exact S3|split; assumption|cbn [frag_new f_start]; lia|].
-          cbn [frag_new f_start]. destruct (N.le_gt_cases (t_to tk - t_from tk) max); [left; assumption|right; split; [reflexivity|lia]].
+          cbn [frag_new f_start f_stop]. destruct (N.le_gt_cases (t_to tk - t_from tk) max); [left; assumption|right; repeat split; try reflexivity; lia].
         * apply push_inv; assumption.
       + apply IH; try assumption.
         * unfold try_add_token. destruct (term_score _ _); cbn [f_start]; eapply Forall_impl; try exact Hge'; cbn; intros; lia.
         * apply try_add_inv; [exact Hcur|split; assumption|exact Hge1|left; exact Hsmall].
   Qed.
 
-  (* ---- with a tokenizer whose offset_to never decreases, highlights stay inside the fragment ---- *)
+  (* ---- highlights stay inside the fragment (the fragment end is the furthest token end) ---- *)
   Definition hl_inside (f : frag) : Prop := Forall (fun r => snd r <= f_stop f) (f_hl f).
 
   Lemma search_loop_inside : forall ts cur acc fs,
-    sorted_by t_to ts -> Forall (fun tk => f_stop cur <= t_to tk) ts ->
-    Forall (fun tk => t_from tk <= t_to tk) ts ->
     hl_inside cur -> Forall hl_inside acc ->
     search_loop terms max ts cur acc = Some fs -> Forall hl_inside fs.
   Proof.
     assert (Hpush : forall acc f, Forall hl_inside acc -> hl_inside f -> Forall hl_inside (push_if_scored acc f)).
     { intros acc f Ha Hf. unfold push_if_scored. destruct (spos _); [apply Forall_app; split; [exact Ha|constructor; [exact Hf|constructor]]|exact Ha]. }
-    assert (Hadd : forall f tk, hl_inside f -> f_stop f <= t_to tk -> hl_inside (try_add_token terms f tk) /\ f_stop (try_add_token terms f tk) = t_to tk).
-    { intros f tk Hf Hle. unfold try_add_token, hl_inside in *. destruct (term_score _ _); cbn [f_hl f_stop]; split; try reflexivity.
+    assert (Hadd : forall f tk, hl_inside f -> hl_inside (try_add_token terms f tk)).
+    { intros f tk Hf. unfold try_add_token, hl_inside in *. destruct (term_score _ _); cbn [f_hl f_stop]; rewrite new_stop_eq.
       - apply Forall_app. split; [eapply Forall_impl; [|exact Hf]; cbn; intros; lia|constructor; [cbn; lia|constructor]].
       - eapply Forall_impl; [|exact Hf]. cbn. intros; lia. }
-    induction ts as [|tk r IH]; intros cur acc fs Hs Hge Hwf Hcur Hacc H; cbn [search_loop] in H.
+    induction ts as [|tk r IH]; intros cur acc fs Hcur Hacc H; cbn [search_loop] in H.
     - injection H as <-. apply Hpush; assumption.
-    - inversion Hge as [|? ? Hge1 Hge']; subst. inversion Hwf as [|? ? Hwf1 Hwf']; subst.
-      pose proof (sorted_by_head_le t_to tk r Hs) as Hle. assert (Hs' : sorted_by t_to r) by (cbn [sorted_by] in Hs; tauto).
-      destruct (t_to tk <? f_start cur); [discriminate|].
+    - destruct (t_to tk <? f_start cur); [discriminate|].
       destruct (max <? t_to tk - f_start cur).
-      + destruct (Hadd (frag_new (t_from tk)) tk) as [Ha1 Ha2]; [constructor| |].
-        { cbn [frag_new f_stop]. exact Hwf1. }
-        refine (IH _ _ fs Hs' _ Hwf' Ha1 (Hpush _ _ Hacc Hcur) H). rewrite Ha2. exact Hle.
-      + destruct (Hadd cur tk Hcur Hge1) as [Ha1 Ha2].
-        refine (IH _ _ fs Hs' _ Hwf' Ha1 Hacc H). rewrite Ha2. exact Hle.
+      + refine (IH _ _ fs (Hadd _ tk _) (Hpush _ _ Hacc Hcur) H). constructor.
+      + refine (IH _ _ fs (Hadd _ tk Hcur) Hacc H).
   Qed.
 
-  (* ---- the whole of SnippetGenerator::snippet on a token stream ---- *)
   Lemma shift_ranges_ok start : forall rs,
     Forall (fun r => start <= fst r /\ fst r <= snd r) rs ->
     exists out, shift_ranges start rs = Some out /\ out = map (fun r => (fst r - start, snd r - start)) rs.
@@ -553,7 +556,6 @@ Section Fragments.
     destruct (N.ltb_spec a start); [lia|]. destruct (N.ltb_spec b start); [lia|]. cbn [orb].
     destruct (IH Hall') as (out & -> & ->). eexists. split; reflexivity.
   Qed.
-
 
   (* ---- with non-overlapping tokens the raw highlight ranges are already sorted and disjoint ---- *)
   Lemma ranges_disjoint_snoc : forall rs lo hi a b,
@@ -577,7 +579,7 @@ Section Fragments.
     { intros acc f Ha Hf. unfold push_if_scored. destruct (spos _); [apply Forall_app; split; [exact Ha|constructor; [exact Hf|constructor]]|exact Ha]. }
     assert (Hadd : forall f tk, hl_chain f -> f_stop f <= t_from tk -> t_from tk <= t_to tk ->
                                 hl_chain (try_add_token terms f tk) /\ f_stop (try_add_token terms f tk) = t_to tk).
-    { intros f tk (C1 & C2 & C3) Hle Hwf. unfold try_add_token, hl_chain. destruct (term_score _ _); cbn [f_hl f_stop f_start]; repeat split; try lia.
+    { intros f tk (C1 & C2 & C3) Hle Hwf. unfold try_add_token, hl_chain. destruct (term_score _ _); cbn [f_hl f_stop f_start]; rewrite !new_stop_eq; repeat split; try lia.
       - eapply ranges_disjoint_snoc; eauto.
       - apply Forall_app. split; [eapply Forall_impl; [|exact C2]; cbn; intros; lia|constructor; [cbn; lia|constructor]].
       - exact C1.
@@ -641,7 +643,7 @@ Section Fragments.
        exists tk, In tk all /\ start = t_from tk /\ stop = t_to tk /\ max < t_to tk - t_from tk) /\
       Forall (fun r => exists tk, In tk all /\ t_from tk = start + fst r /\ t_to tk = start + snd r /\ fst r <= snd r /\
                                   term_score terms (lower_str (t_text tk)) <> None) (sn_hl sn) /\
-      (sorted_by t_to all -> Forall (fun r => start + snd r <= stop) (sn_hl sn)).
+      Forall (fun r => start + snd r <= stop) (sn_hl sn).
 
   Theorem snippet_of_ok : exists sn, snippet_of terms max text all = Some sn /\ snippet_post sn.
   Proof.
@@ -664,13 +666,8 @@ Section Fragments.
     - subst hl. apply Forall_forall. intros r Hin. apply in_map_iff in Hin as (r0 & <- & Hin0).
       rewrite Forall_forall in Hhl, Hwf. destruct (Hhl r0 Hin0) as (tk & Hin & -> & Hsc & Hge). destruct (Hwf _ Hin0) as [W1 W2].
       cbn [fst snd] in *. exists tk. repeat split; try assumption; lia.
-    - intros Hto.
-      assert (Hins : Forall (hl_inside) fs).
-      { eapply (search_loop_inside all (frag_new 0) [] fs Hto); try exact Efs.
-        - apply Forall_forall. intros tk _. cbn [frag_new f_stop]. lia.
-        - eapply Forall_impl; [|exact all_spans]. cbn beta. intros tk Hs. apply (span_ok_facts text tk Hs).
-        - constructor.
-        - constructor. }
+    - assert (Hins : Forall (hl_inside) fs).
+      { eapply (search_loop_inside all (frag_new 0) [] fs); try exact Efs; constructor. }
       rewrite Forall_forall in Hins. specialize (Hins f Eb). unfold hl_inside in Hins.
       subst hl. apply Forall_forall. intros r Hin. apply in_map_iff in Hin as (r0 & <- & Hin0).
       rewrite Forall_forall in Hins, Hwf. specialize (Hins r0 Hin0). destruct (Hwf _ Hin0) as [W1 W2]. cbn [fst snd]. lia.
@@ -678,11 +675,11 @@ Section Fragments.
 End Fragments.
 
 (* ------------------------------------------------------------------------------------------ *)
-(* Collapsed highlights of a generated snippet, for token streams whose offset_to never decreases
-   (every non-overlapping tokenizer): sorted, disjoint, inside the fragment, on its character
-   boundaries, covering exactly the highlighted tokens; to_html does not panic. *)
+(* Collapsed highlights of a generated snippet, for every token stream with spans on boundaries and
+   non-decreasing offset_from (overlapping or not): sorted, disjoint, inside the fragment, on its
+   character boundaries, covering exactly the highlighted tokens; to_html does not panic. *)
 Theorem snippet_ranges_ok (score : Type) szero sadd spos scmp lower_str text all terms max prefix postfix sn :
-  Forall (span_ok text) all -> from_sorted all -> sorted_by t_to all ->
+  Forall (span_ok text) all -> from_sorted all ->
   snippet_of score szero sadd spos scmp lower_str terms max text all = Some sn ->
   let frag := sn_fragment sn in
   let hl := collapse (sn_hl sn) in
@@ -691,11 +688,11 @@ Theorem snippet_ranges_ok (score : Type) szero sadd spos scmp lower_str text all
   (forall p, covered p hl <-> covered p (sn_hl sn)) /\
   to_html prefix postfix sn <> None.
 Proof.
-  intros Hsp Hfs Hts Hsn frag hl.
+  intros Hsp Hfs Hsn frag hl.
   destruct (snippet_of_ok score szero sadd spos scmp lower_str text all terms max Hsp Hfs) as (sn' & E & Hpost).
   rewrite Hsn in E. injection E as <-.
   assert (Hraw : Forall (fun r => fst r <= snd r /\ boundary frag (fst r) /\ boundary frag (snd r)) (sn_hl sn)).
-  { destruct Hpost as [->|(start & stop & Hp & _ & Hhl & Hin)]; [constructor|]. specialize (Hin Hts).
+  { destruct Hpost as [->|(start & stop & Hp & _ & Hhl & Hin)]; [constructor|].
     apply Forall_forall. intros r Hr. rewrite Forall_forall in Hhl, Hin. destruct (Hhl r Hr) as (tk & Htk & F1 & F2 & Hle & _).
     specialize (Hin r Hr). rewrite Forall_forall in Hsp. destruct (span_ok_facts _ _ (Hsp tk Htk)) as (_ & _ & B1 & B2).
     split; [exact Hle|]. split.
